@@ -7,7 +7,8 @@ and its `return 0`; write_text's CIF_INTERNAL_ERROR; write_literal / write_ulite
 wrapping; write_item on a data name the API would refuse): write_char derives `prefix` whenever it folds a text holding a
 semicolon (C02_flags_semis), so fold_line always finds a fold point in its window (C02_fold_line_progress) — through cif_write
 those lines are dead code, here they are compared with the model; (b) the oracle restates C02_last_column_exact on the
-implementation: after a successful step `last_column` is the number of UTF-16 units written since the last line feed."""
+implementation: after a successful step `last_column` is not smaller than the number of UTF-16 units written since the last
+line feed (equality is the model's: compared)."""
 import os, sys
 sys.path.insert(0, os.path.dirname(os.path.abspath(__file__)))
 from common import rng, hexs, unhexs
@@ -21,7 +22,7 @@ RULE = ("direct calls of the static writer functions: fold_line (small targets/w
         "write_text under all four (fold, prefix) settings incl. those write_char never derives, write_char / write_item at "
         "chosen columns (boundary keys, names of 1 .. 2050 units), write_literal / write_uliteral at the end of a line with and "
         "without wrapping; non-trivial = the call succeeded; compared: result, last_column, flags, bytes; oracle (implementation "
-        "only): last_column = units since the last LF of what was written; fold_line's result is a legal fold point")
+        "only): last_column >= units since the last LF of what was written (equality: model); fold_line's result is a legal fold point")
 
 LINE = 2048
 LEAD, TRAIL = 0xD83D, 0xDE00
@@ -278,8 +279,14 @@ def oracle(req, impl):
             if 10 in (nm or []) or not clean_tokens(t[7:]):
                 return None
         exp = expected_column(col, units)
-        if str(exp) != d.get("col"):
-            return "last_column = %s after the step, but %d units were written since the last line feed (C02_last_column_exact)" % (d.get("col"), exp)
+        # the property-relevant half of C02_last_column_exact: last_column never UNDERestimates the column (an underestimate lets a
+        # later wrap test pass on a full line); an overestimate only wraps early — it is a model disagreement, not a violation
+        try:
+            if int(d.get("col")) < exp:
+                return ("last_column = %s after the step, but %d units were written since the last line feed "
+                        "(C02_last_column_exact)" % (d.get("col"), exp))
+        except (TypeError, ValueError):
+            return "no last_column in the observation"
         return None
     if op == "valid11":
         s = unhexs(t[2]) or []
@@ -300,8 +307,11 @@ def oracle(req, impl):
         if units is None or 10 in text:
             return None
         exp = expected_column(int(t[2]), units)
-        if str(exp) != d.get("col"):
-            return "last_column = %s after the literal, but the line holds %d units" % (d.get("col"), exp)
+        try:
+            if int(d.get("col")) < exp:
+                return "last_column = %s after the literal, but the line holds %d units" % (d.get("col"), exp)
+        except (TypeError, ValueError):
+            return "no last_column in the observation"
         return None
     return None
 
